@@ -4,6 +4,7 @@ import (
 	"bytes"
 	"context"
 	"fmt"
+	hnet "github.com/cloudwego/hertz/pkg/network"
 	"net"
 	"os"
 	"path/filepath"
@@ -43,12 +44,13 @@ type ConnPlan struct {
 }
 
 type Plan struct {
-	Network   string     `json:"network"` // unix or tcp
-	Transport string     `json:"transport"`
-	WaitMs    int        `json:"exit_wait_ms"`
-	Hook      string     `json:"hook"`                       // none, fast, 50ms, most-of-wait, beyond-wait
-	Sense     bool       `json:"sense_client_disconnection"` // standard transport only
-	Conns     []ConnPlan `json:"connections"`
+	Network     string     `json:"network"` // unix or tcp
+	Transport   string     `json:"transport"`
+	WaitMs      int        `json:"exit_wait_ms"`
+	Hook        string     `json:"hook"`                       // none, fast, 50ms, most-of-wait, beyond-wait
+	Sense       bool       `json:"sense_client_disconnection"` // standard transport only
+	OnConnectMs int        `json:"on_connect_ms,omitempty"`    // an OnConnect callback that takes this long; a last connection sends its request and is still inside the callback when Shutdown is called
+	Conns       []ConnPlan `json:"connections"`
 }
 
 var sockCounter int32
@@ -88,8 +90,12 @@ func readResponse(c net.Conn, d time.Duration) (*wire.ParsedResp, []byte, error)
 // verdict and the scenario counts as inconclusive (skipped, classified), never as a violation.
 const overloaded = 100 * time.Millisecond
 
+var maxLate int64 // worst heartbeat lateness of the running scenario (ns)
+
+func beatLate() time.Duration { return time.Duration(atomic.LoadInt64(&maxLate)) }
+
 func runPlan(p *Plan) (msg string, log []string) {
-	var maxLate int64
+	atomic.StoreInt64(&maxLate, 0)
 	stopBeat := make(chan struct{})
 	go func() {
 		for {
@@ -146,6 +152,15 @@ func runPlanInner(p *Plan) (msg string, log []string) {
 			opts = append(opts, server.WithSenseClientDisconnection(true))
 		}
 	}
+	var onConnectEntered int32
+	dialed := int32(0) // connections this scenario opened so far (each passes through OnConnect once accepted)
+	if p.OnConnectMs > 0 {
+		opts = append(opts, server.WithOnConnect(func(ctx context.Context, conn hnet.Conn) context.Context {
+			atomic.AddInt32(&onConnectEntered, 1)
+			time.Sleep(time.Duration(p.OnConnectMs) * time.Millisecond)
+			return ctx
+		}))
+	}
 	h := server.New(opts...)
 	entered := make(chan int, 16)
 	release := map[int]chan struct{}{}
@@ -173,6 +188,11 @@ func runPlanInner(p *Plan) (msg string, log []string) {
 		atomic.StoreInt64(&handlerDone[id], time.Now().UnixNano())
 	})
 	h.GET("/fast", func(c context.Context, ctx *app.RequestContext) { ctx.SetBodyString("fast") })
+	var lateDone int64 // unix nanos when the handler of the last connection's request returned
+	h.GET("/late", func(c context.Context, ctx *app.RequestContext) {
+		ctx.SetBodyString("fast")
+		atomic.StoreInt64(&lateDone, time.Now().UnixNano())
+	})
 	hookStarted := make(chan struct{}, 4)
 	var hooksStarted, hooksFinished int32
 	nhooks := 0
@@ -206,6 +226,7 @@ func runPlanInner(p *Plan) (msg string, log []string) {
 	for i := 0; i < 400; i++ {
 		c, err := net.Dial(network, sock)
 		if err == nil {
+			dialed++
 			c.Close()
 			up = true
 			break
@@ -255,6 +276,7 @@ func runPlanInner(p *Plan) (msg string, log []string) {
 			return fmt.Sprintf("harness: dial failed before shutdown: %v", err), log
 		}
 		conns[i] = c
+		dialed++
 		switch cp.State {
 		case "busy":
 			fmt.Fprintf(c, "GET /park/%d HTTP/1.1\r\nHost: h\r\n\r\n", i)
@@ -313,6 +335,39 @@ func runPlanInner(p *Plan) (msg string, log []string) {
 			logf("released handler %d before Shutdown", i)
 		}
 	}
+	// a last connection: accepted, its request sent, still inside the OnConnect callback when Shutdown is called
+	var lateConn net.Conn
+	var lateRes chan result
+	if p.OnConnectMs > 0 {
+		// the standard transport runs OnConnect inside its accept loop: first let every earlier
+		// connection get through it, so that the callback entered next is the last connection's
+		for k := 0; k < 4000 && atomic.LoadInt32(&onConnectEntered) < dialed; k++ {
+			time.Sleep(time.Millisecond)
+		}
+		if atomic.LoadInt32(&onConnectEntered) < dialed {
+			return "harness: earlier connections were not all accepted within 4 s", log
+		}
+		time.Sleep(time.Duration(p.OnConnectMs+10) * time.Millisecond)
+		c, err := net.Dial(network, sock)
+		if err != nil {
+			return fmt.Sprintf("harness: dial failed before shutdown: %v", err), log
+		}
+		lateConn = c
+		defer c.Close()
+		fmt.Fprintf(c, "GET /late HTTP/1.1\r\nHost: h\r\n\r\n")
+		for k := 0; k < 2000 && atomic.LoadInt32(&onConnectEntered) <= dialed; k++ {
+			time.Sleep(200 * time.Microsecond)
+		}
+		if atomic.LoadInt32(&onConnectEntered) <= dialed {
+			return "harness: the OnConnect callback of the last connection was not entered within 400 ms", log
+		}
+		logf("last connection accepted (OnConnect callback running, request sent)")
+		lateRes = make(chan result, 1)
+		go func() {
+			pr, raw, err := readResponse(c, wait+6*time.Second)
+			lateRes <- result{pr, raw, err, time.Now()}
+		}()
+	}
 	// ---- Shutdown
 	shutdownDone := make(chan error, 1)
 	t0 := time.Now()
@@ -357,6 +412,11 @@ func runPlanInner(p *Plan) (msg string, log []string) {
 	case <-time.After(wait + slack):
 		return fmt.Sprintf("Shutdown did not return within ExitWaitTimeout (%v) + %v", wait, slack), log
 	}
+	// with a quiet scheduler the bound is tight: a hook that overruns the exit wait time (by 300 ms
+	// here) must not hold Shutdown back
+	if elapsed > wait+200*time.Millisecond && beatLate() <= 20*time.Millisecond {
+		return fmt.Sprintf("Shutdown returned after %v although the exit wait time is %v and the scheduler was never more than %v late (hooks: %s)", elapsed, wait, beatLate(), p.Hook), log
+	}
 	_ = afterHook
 	// a Shutdown that returns before its deadline claims that every connection is finished: no request
 	// that had reached its handler before Shutdown was called may still be in that handler
@@ -368,6 +428,11 @@ func runPlanInner(p *Plan) (msg string, log []string) {
 			return fmt.Sprintf("Shutdown returned after %v, before the exit wait time (%v) was over, while only %d of %d shutdown hooks had finished", elapsed, wait, f, nhooks), log
 		}
 		ret := atomic.LoadInt64(&shutdownReturned)
+		if lateConn != nil {
+			if done := atomic.LoadInt64(&lateDone); done == 0 || done > ret {
+				return fmt.Sprintf("Shutdown returned after %v (ExitWaitTimeout %v) while the request of a connection that had been accepted (its %d ms OnConnect callback was running) and had sent its request before Shutdown was called was still unanswered", elapsed, wait, p.OnConnectMs), log
+			}
+		}
 		for i, cp := range p.Conns {
 			if cp.State != "busy" {
 				continue
@@ -412,6 +477,17 @@ func runPlanInner(p *Plan) (msg string, log []string) {
 			return fmt.Sprintf("connection %d: the handler returned after shutdown began (released after the hook fired) but the response lacks Connection: close; headers %v", i, r.pr.Headers), log
 		}
 	}
+	if lateConn != nil {
+		var r result
+		select {
+		case r = <-lateRes:
+		case <-time.After(wait + 6*time.Second):
+			return "the connection accepted just before Shutdown (request sent, OnConnect callback running) got no response", log
+		}
+		if r.err != nil || r.pr == nil || r.pr.Status != 200 || string(r.pr.Body) != "fast" {
+			return fmt.Sprintf("the connection that was accepted (its OnConnect callback was running, %d ms) and had sent its request when Shutdown was called got no complete response although the exit wait time is %v: err=%v, %d bytes: %.100q (Shutdown returned after %v)", p.OnConnectMs, wait, r.err, len(r.raw), r.raw, elapsed), log
+		}
+	}
 	// ---- after Shutdown returned
 	if c, err := net.DialTimeout(network, sock, time.Second); err == nil {
 		fmt.Fprintf(c, "GET /fast HTTP/1.1\r\nHost: h\r\n\r\n")
@@ -452,7 +528,13 @@ func genPlan(t *rapid.T, transport string) *Plan {
 	if transport == "standard" {
 		p.Sense = rapid.Bool().Draw(t, "senseClientDisconnection")
 	}
+	if rapid.IntRange(0, 3).Draw(t, "slowOnConnect") == 0 {
+		p.OnConnectMs = 40
+	}
 	n := rapid.IntRange(1, 6).Draw(t, "nConns")
+	if p.OnConnectMs > 0 && rapid.IntRange(0, 2).Draw(t, "noOtherConnection") == 0 {
+		n = 0 // the connection inside OnConnect is the only one the server has
+	}
 	for i := 0; i < n; i++ {
 		cp := ConnPlan{State: rapid.SampledFrom([]string{"busy", "busy", "busy", "idle", "mid-request", "connected", "busy-client-gone"}).Draw(t, "state")}
 		if cp.State == "busy-client-gone" {
@@ -471,6 +553,9 @@ func classify(p *Plan) (bool, []string) {
 	cls := []string{"network-" + p.Network, "transport-" + p.Transport, fmt.Sprintf("wait-%dms", p.WaitMs), "hook-" + p.Hook}
 	if p.Sense {
 		cls = append(cls, "sense-client-disconnection")
+	}
+	if p.OnConnectMs > 0 {
+		cls = append(cls, "connection-inside-OnConnect-at-shutdown")
 	}
 	busyLate, other := false, false
 	for _, c := range p.Conns {
@@ -492,7 +577,7 @@ func classify(p *Plan) (bool, []string) {
 			out = append(out, x)
 		}
 	}
-	return busyLate && (other || len(p.Conns) >= 2), out
+	return (busyLate && (other || len(p.Conns) >= 2)) || p.OnConnectMs > 0, out
 }
 
 func scenarios(t *testing.T, transport, unit string) {
